@@ -10,9 +10,11 @@ replacement of four lines by a rect (endorse)."""
 import itertools
 from fractions import Fraction
 
+import re
+
 from .. import tae_conf
 from ..common import guards, short, where
-from ..exprs import mentions, strip
+from ..exprs import closure_of, expand_combinators, mentions, simplify, strip
 from ..mirlib import Expr, Program
 from ..tae import DIRS, TableError, Tables
 
@@ -167,6 +169,24 @@ def run(run):
             for c, tk, sw in guards(prog, pb, bid):
                 if mentions(c, lambda z: z[0] == "call" and z[1].endswith("Property::from_char")) and strip(c)[0] == "discr" and tk == 1:
                     ok = True
+        if not ins:
+            # `map.extend(span.iter().filter_map(|(cell, ch)| Property::from_char(*ch).map(|p| (*cell, p))))`: what is inserted is
+            # the Some-payload of from_char by construction
+            pex = Expr(prog, pb)
+            for bid, t in prog.calls(pb):
+                if re.search(r"Extend<.*>>::extend$|HashMap::<K, V, S, A>::extend$", Program.callee_name(t)) and len(t["args"]) == 2:
+                    it_ = strip(pex.operand(t["args"][1]))
+                    if it_[0] == "call" and re.search(r"Iterator::filter_map$", it_[1]) and len(it_[2]) == 2:
+                        cl_, _c = closure_of(strip(it_[2][1]))
+                        if cl_ in prog.bodies:
+                            rr = [strip(simplify(expand_combinators(prog, x))) for x in Expr(prog, cl_).returns()]
+                            alts_ = []
+                            for x in rr:
+                                alts_.extend(strip(a_) for a_ in (x[1] if x[0] == "phi" else [x]))
+                            somes_ = [a_ for a_ in alts_ if a_[0] == "agg" and a_[2] == "Some"]
+                            if somes_ and all(mentions(a_, lambda z: z[0] == "field" and tuple(z[2])[:2] == ("@Some", "0") and strip(z[1])[0] == "call" and strip(z[1])[1].endswith("Property::from_char")) for a_ in somes_) and \
+                                    all(a_[0] == "agg" and a_[2] in ("Some", "None") for a_ in alts_):
+                                ins, ok = [(bid, t)], True
         if ins and ok:
             run.ok("C03.T2", "only characters with a table entry (Property::from_char is Some) enter the property buffer", where(ins[0][1]))
         else:
